@@ -51,6 +51,7 @@ func (e Ev) String() string {
 
 var sqlOf = map[string]string{
 	"NB": "set names utf8mb4 collate utf8mb4_bin",
+	"NG": "set names gb18030", // in mysql.CharsetIds but not in mysql.Charsets: SetCharset refuses it locally on a pre-8.0 backend
 	"N0": "set names utf8mb4",
 	"N1": "set names latin1",
 	"N2": "set names gbk collate gbk_bin",
@@ -384,6 +385,7 @@ func replay(cfg Config, hist []Ev) (res xstate.Result, trace []string) {
 	w := newWorld(cfg, r)
 	defer w.close()
 	rejKind := "none"
+	earlier := "none" // how an earlier query of the history failed, if one did
 	for i, e := range hist {
 		stale := w.staleBeliefs()
 		si := w.step(e)
@@ -403,6 +405,13 @@ func replay(cfg Config, hist []Ev) (res xstate.Result, trace []string) {
 			}
 		}
 		trace = append(trace, line)
+		if e.S >= 0 && e.C == "Q" && !si.ok {
+			if si.rejected != "" {
+				earlier = "backend_rejected_set"
+			} else {
+				earlier = "refused_before_anything_was_sent"
+			}
+		}
 		if si.rejected != "" {
 			if strings.Contains(si.rejected, "injected") {
 				rejKind = "injected"
@@ -420,9 +429,10 @@ func replay(cfg Config, hist []Ev) (res xstate.Result, trace []string) {
 				comps, dirs := diff(ref, si.backend.State)
 				res.Violation = fmt.Sprintf("query of c%d ran on a backend connection in state %s, but the client's settings are %s", e.S, si.backend.State, ref)
 				res.Features = map[string]string{
-					"component":    strings.Join(comps, "+"),
-					"direction":    strings.Join(uniq(dirs), "+"),
-					"rejected_set": rejKind,
+					"component":            strings.Join(comps, "+"),
+					"direction":            strings.Join(uniq(dirs), "+"),
+					"rejected_set":         rejKind,
+					"earlier_failed_query": earlier,
 					// mechanism: did the proxy believe something wrong about this connection
 					// before the query / does its session object still hold the client's settings
 					"stale_belief": fmt.Sprint(stale[si.backend.Conn]),
@@ -735,6 +745,10 @@ func main() {
 			// value changes of ONE variable on one pooled connection: the connection carries v=x,
 			// a client with v=y syncs ("both set, values differ"), then changes v again
 			{Name: "2clients-cap1-value-change", Sessions: 2, Capacity: 1, Cmds: []string{"L5", "L9", "Q"}, Faults: 0, Depth: 6},
+			// a character set the proxy acknowledges but DirectConnection.SetCharset refuses
+			// before anything is sent (no backend rejection), between clients with and
+			// without a session variable
+			{Name: "2clients-cap1-refused-charset", Sessions: 2, Capacity: 1, Cmds: []string{"NG", "N0", "L5", "LD", "Q"}, Faults: 0, Depth: 6},
 			{Name: "2clients-cap1-charset-vars", Sessions: 2, Capacity: 1, Cmds: []string{"CR", "N0", "N2", "Q"}, Faults: 0, Depth: 5},
 		}
 	} else {
@@ -746,12 +760,15 @@ func main() {
 			{Name: "3clients-cap1", Sessions: 3, Capacity: 1, Cmds: small, Faults: 1, Depth: 5},
 			{Name: "2clients-cap1-value-change", Sessions: 2, Capacity: 1, Cmds: []string{"L5", "L9", "LD", "Q"}, Faults: 0, Depth: 8},
 			{Name: "2clients-cap2-value-change", Sessions: 2, Capacity: 2, Cmds: []string{"L5", "L9", "Q"}, Faults: 0, Depth: 7},
+			{Name: "2clients-cap1-refused-charset", Sessions: 2, Capacity: 1, Cmds: []string{"NG", "N0", "L5", "LD", "U1", "Q"}, Faults: 1, Depth: 6},
+			{Name: "3clients-cap1-refused-charset", Sessions: 3, Capacity: 1, Cmds: []string{"NG", "L5", "Q"}, Faults: 0, Depth: 6},
 		}
 	}
 	// session collation ids x backend versions: two clients share one pooled connection, in
 	// both orders; ids: 45 (charset default), 46 (explicit non-default utf8mb4_bin), 255
-	// (utf8mb4_0900_ai_ci, a MySQL 8 driver's handshake; "default" on a pre-8.0 backend), 0
-	collIDs := []int{45, 46, 255, 0}
+	// (utf8mb4_0900_ai_ci, a MySQL 8 driver's handshake; "default" on a pre-8.0 backend), 0,
+	// 248 (gb18030_chinese_ci: SetCharset refuses it on a pre-8.0 backend)
+	collIDs := []int{45, 46, 255, 0, 248}
 	for _, ver := range []string{"5.7.25-fakemysql", "8.0.30-fakemysql", "mystery-build"} {
 		for _, a := range collIDs {
 			for _, b := range collIDs {
